@@ -58,6 +58,11 @@ pub fn gen_case(rng: &mut Rng, case: u64) -> MpCase {
         let d = ((pe as f32) as f64 - (ps as f32) as f64).abs();
         d >= 1.05 * need + 1e-3
     };
+    if rng.chance(0.02) {
+        // degenerate: zero displacement at cruise speed => a profile of zero duration (t1 = t2 = t3 = 0) is accepted
+        let p = rng.moderate(1e4);
+        return MpCase { start: State::new_raw(p, max_vel, start_acc), end: State::new_raw(p, max_vel, end_acc), max_vel, max_acc, comfortable: false };
+    }
     MpCase {
         start: State::new_raw(ps as f32, v0, start_acc),
         end: State::new_raw(pe as f32, v1, end_acc),
